@@ -101,17 +101,25 @@ def walk(ctx, report, facts, config, rule="C20.WALK"):
     report.ob(rule, "ok-after-walk", not bad, "Ok(()) is returned only after every level was exhausted" if not bad else "Ok(()) can be returned from the middle of the walk", site=b.loc(), config=config)
     # Debug::fmt and print_par_seq format the builder itself
     fmt = facts.one(name="fmt", trait="std::fmt::Debug", self_head=A.DB)
-    bt2 = prog.bt(fmt)
-    cs = [(bb, Callee(t["func"])) for bb, t in fmt.normal_calls()]
-    okf = len(cs) == 1 and cs[0][1].name == "write_par_seq"
-    if okf:
-        a = bt2.call_args(cs[0][0])
-        okf = a[0] == ("field", ("param", 1), "stages_builder", A.DB) and a[1] == ("param", 2) and a[2] == ("field", ("param", 1), "map", A.DB)
-    report.ob("C20.PRINT", "Debug::fmt", okf, "self.stages_builder.write_par_seq(f, &self.map)" if okf else "Debug::fmt does not print the builder's own tables", site=fmt.loc(), config=config)
+    wps = facts.one(A.SB + "::write_par_seq")
+    ev2, ends2 = Q.sem(ctx, facts, fmt, opaque=[wps.key])
+    okf = bool(Q.returns(ends2))
+    for e in Q.returns(ends2):
+        cs = Q.calls_in(e.path.events, lambda c: c.key == wps.key, deep=True)
+        if len(cs) != 1 or Q.all_loops([e]):
+            okf = False
+            continue
+        a = [Q.strip(ev2, y) for y in cs[0][3]]
+        if not (a[0] == ("field", ("param", 1), "stages_builder", A.DB) and a[1] == ("param", 2) and a[2] == ("field", ("param", 1), "map", A.DB) and Q.strip(ev2, e.ret) == cs[0][4]):
+            okf = False
+    report.ob("C20.PRINT", "Debug::fmt", okf, "self.stages_builder.write_par_seq(f, &self.map)" if okf else "Debug::fmt does not print the builder's own tables (or drops the result)", site=fmt.loc(), config=config)
     pp = facts.one(A.DB + "::print_par_seq")
-    bt3 = prog.bt(pp)
-    dbg = [bb for bb, t in pp.normal_calls() if Callee(t["func"]).name in ("new_debug", "new_display")]
-    okp = len(dbg) == 1 and root(bt3.call_args(dbg[0])[0], bt3, facts.crate)[0] == SELF
+    ev3, ends3 = Q.sem(ctx, facts, pp, opaque=[fmt.key])
+    okp = bool(Q.returns(ends3))
+    for e in Q.returns(ends3):
+        dbg = Q.calls_in(e.path.events, lambda c: c.name in ("new_debug", "new_display"), deep=True)
+        if not (len(dbg) == 1 and Q.strip(ev3, dbg[0][3][0]) == ("param", 1)):
+            okp = False
     report.ob("C20.PRINT", "print_par_seq", okp, "prints `self` with {:#?}" if okp else "print_par_seq does not format self", site=pp.loc(), config=config)
 
 
